@@ -175,6 +175,8 @@ pub trait Strategy {
 pub struct Ctx {
     pub sched: Arc<Sched>,
     pub t: usize,
+    /// the task's waker: always the same object, so `Waker::will_wake` holds between two polls (as with a real executor)
+    pub task_waker: Waker,
 }
 
 #[derive(Debug)]
@@ -339,7 +341,7 @@ impl Sched {
             .stack_size(1 << 20)
             .spawn(move || {
                 LT.with(|lt| *lt.borrow_mut() = Some((Arc::clone(&sched), t)));
-                let ctx = Ctx { sched: Arc::clone(&sched), t };
+                let ctx = Ctx { sched: Arc::clone(&sched), t, task_waker: make_waker(&sched, t) };
                 // wait for the first grant
                 let started = {
                     let mut g = sched.inner.lock().unwrap();
@@ -564,9 +566,13 @@ impl Ctx {
 
     /// A waker that marks this task as notified (tokio-like sticky notification) and counts the wakes
     pub fn waker(&self) -> Waker {
-        let data = Arc::new(WakerData { sched: Arc::clone(&self.sched), t: self.t });
-        unsafe { Waker::from_raw(RawWaker::new(Arc::into_raw(data) as *const (), &VTABLE)) }
+        self.task_waker.clone()
     }
+}
+
+fn make_waker(sched: &Arc<Sched>, t: usize) -> Waker {
+    let data = Arc::new(WakerData { sched: Arc::clone(sched), t });
+    unsafe { Waker::from_raw(RawWaker::new(Arc::into_raw(data) as *const (), &VTABLE)) }
 }
 
 struct WakerData {
